@@ -121,6 +121,9 @@ func c09(env *Env, rep *Report) {
 	rep.Rule = "all thread schedules (client(s), real HTTP handler(s), the gateway's relay goroutine, backend(s)) of the drivers " + strings.Join(names, ", ") +
 		" and D7 (a connection-file download concurrent with a tunnel's channel creation, host list shared as main.go shares it), D8 (two legacy tunnels, back-to-back traffic, one write per read, lockstep default schedule), D12 (a 64 KiB + 1 burst of the host), D11 (websocket PING frames while the host sends), D10 (two logged-in browsers downloading at the same time from a gateway with an .rdp template), D9 (two websocket tunnels whose real tokens are verified by the real security callbacks, the identity-provider round trip being a scheduling point) up to the preemption / deviation bound, on the real handlers over in-memory connections; oracle per schedule: no race report from the race runtime (race build, hand-off invisible to it), " +
 		"client byte stream decodes into whole well-formed packets whose data payloads are a prefix of what the host sent, no panic in any thread. distinct_nontrivial = distinct per-schedule observations."
+	if env.thorough() {
+		rep.Rule += " Thorough tier: every driver is first explored completely with the bounds of the quick tier, then again with the full bounds for as long as the time budget lasts (caps_hit names what the budget cut)."
+	}
 	rep.Assumptions = append(rep.Assumptions,
 		"scheduling points are the blocking operations and every Write/Close on a connection, dial, spawn, lock/unlock; a single Write is atomic (as in Go's network layer)",
 		"the race runtime keeps a bounded access history per word (executions are a few hundred steps)",
@@ -159,21 +162,40 @@ func c09(env *Env, rep *Report) {
 		}
 		return
 	}
-	for _, sc := range scs {
-		if env.Part != "" && !strings.Contains(sc.Name, env.Part) {
-			continue
+	// thorough: every driver first with the bounds of the quick tier (complete within minutes), then again with
+	// the full bounds for as long as the time budget lasts, so that no driver is left unexplored because an
+	// earlier one used up the budget
+	boundsOf := func(sc ConcScenario, thorough bool) int {
+		b := 1
+		if thorough {
+			b = bound
 		}
-		b := bound
 		if sc.Deviation {
 			b = 2
-			if env.thorough() {
+			if thorough {
 				b = 3
 			}
 		}
-		if strings.HasPrefix(sc.Name, "D12") && !env.thorough() {
+		if strings.HasPrefix(sc.Name, "D12") && !thorough {
 			b = 0 // 17 packets of 4086 bytes: the default schedule in quick, bound 1 in thorough
 		}
-		exploreConc(env, rep, sc, b, rl, c09Check(sc))
+		return b
+	}
+	passes := []bool{env.thorough()}
+	if env.thorough() {
+		passes = []bool{false, true}
+	}
+	for _, full := range passes {
+		for _, sc := range scs {
+			if env.Part != "" && !strings.Contains(sc.Name, env.Part) {
+				continue
+			}
+			b := boundsOf(sc, full)
+			if full && len(passes) == 2 && b == boundsOf(sc, false) {
+				continue
+			}
+			exploreConc(env, rep, sc, b, rl, c09Check(sc))
+		}
 	}
 	if env.Part == "" || strings.Contains("D7-download-vs-channel-create", env.Part) {
 		c09Web(env, rep, rl, bound)
